@@ -178,6 +178,13 @@ CHECKS["C22"] = {
     "note": "POSIX file system semantics of this sandbox (tmpfs/ext4); Windows drive/UNC names are only fed as plain strings.",
 }
 
+CHECKS["C23"] = {
+    "technique": "model-based history testing: request/edit sequences on caching loaders vs their non-caching twins",
+    "text": "Random histories (3-12 steps) of synchronous and asynchronous requests - direct with namespace keyword / request globals, or through include+render tags with the namespace in the render context - interleaved with source edits, for five caching loaders (dict, choice, file system, and namespace-aware dict/file loaders composed with CachingLoaderMixin as documented) with capacity 1-4, auto_reload on/off and namespace_key set/unset; after every request the name, source, globals and rendered text (or error class) must equal those of the same loader without the mixin reading the same store.",
+    "design_ref": "DESIGN.md §4 C23",
+    "note": "With auto_reload off any earlier version of that same (namespace, name) is accepted. File edits bump mtime explicitly (os.utime), so mtime granularity cannot flake.",
+}
+
 NOT_APPLICABLE = [
     {"property_id": p, "reason": "check not built yet in this round (work in progress; see DESIGN.md §4 for the planned oracle)"}
     for p in ALL
